@@ -47,9 +47,27 @@ def table(subtables):
     return struct.pack(">HH", 0, n) + recs + blob
 
 
-def from_case(c, bmp_rec=(3, 1), smp_rec=(3, 10)):
+def fmt6(first, gids):
+    return struct.pack(">HHHHH", 6, 10 + 2 * len(gids), 0, first, len(gids)) + b"".join(struct.pack(">H", g) for g in gids)
+
+
+def decoy(fmt):
+    """A well-formed subtable whose content differs from every generated configuration (for records that must lose)."""
+    if fmt == 4:
+        return fmt4([{"s": 0, "e": 0xFFFE, "delta": 5, "off": 0}, {"s": 0xFFFF, "e": 0xFFFF, "delta": 1, "off": 0}], [])
+    if fmt == 6:
+        return fmt6(0x20, [7] * 96)
+    return fmt12([{"s": 0x10000, "e": 0x10FFFF, "g": 9}])
+
+
+def from_case(c, bmp_rec=(3, 1), smp_rec=(3, 10), decoys=()):
+    """decoys: (platform, encoding, format) records of lower preference than bmp_rec / smp_rec, with other content"""
     subs = [(bmp_rec[0], bmp_rec[1], fmt4(c["segs"], c["gia"]))]
     if c.get("has12"):
         subs.append((smp_rec[0], smp_rec[1], fmt12(c["groups"])))
+    for pid, eid, f in decoys:
+        if f == 12 and not c.get("has12"):
+            continue        # (without a real supplementary subtable the lower-preference one would rightly be used)
+        subs.append((pid, eid, decoy(f)))
     subs.sort(key=lambda t: (t[0], t[1]))
     return table(subs)
